@@ -120,7 +120,10 @@ def shrink(scn, still_fails, budget_s=60.0, max_rounds=6):
                     pass
                 i -= chunk
             chunk //= 2
-        best = gc_points(gc_nodes(best))
+        # garbage collection is itself only a candidate: with some defects even a node that no step
+        # refers to matters (constructing it may already disturb its children)
+        attempt(gc_nodes(best))
+        attempt(gc_points(best))
         # 2. world: replace a node by one of its kids / by a leaf constant; lower arities
         i = len(best["nodes"]) - 1
         while i >= 0:
@@ -190,6 +193,7 @@ def _node_candidates(scn, i):
         cand = copy.deepcopy(scn)
         cand["nodes"][i] = {"op": "Constant", "value": 1}
         yield gc_nodes(cand)
+        yield cand
     if kids and node["op"] in lib.NARY:
         for drop in range(len(kids)):
             cand = copy.deepcopy(scn)
